@@ -4,7 +4,7 @@ use serde_json::Value;
 
 use crate::generator::ast::{
   DiscriminatedEnumDef, DiscriminatedVariant, Documentation, EnumDef, EnumMethod, EnumToken, EnumVariantToken,
-  RustType, SerdeAttribute, VariantDef,
+  RustType, SerdeAttribute, VariantContent, VariantDef,
 };
 
 #[derive(Copy, Clone, PartialEq, Eq, Debug)]
@@ -84,12 +84,29 @@ impl RustType {
     variants: Vec<VariantDef>,
     methods: Vec<EnumMethod>,
   ) -> Self {
+    // A unit variant stands for a `const` value and is matched by its (renamed) name.
+    // A container-level `untagged` would make serde ignore that name (a unit variant
+    // then only matches `null`), so with unit variants present the enum stays tagged
+    // and only the other variants are marked `untagged`; serde wants those last.
+    let has_unit = variants.iter().any(|v| matches!(v.content, VariantContent::Unit));
+    let (variants, serde_attrs) = if has_unit {
+      let (units, mut others): (Vec<_>, Vec<_>) = variants
+        .into_iter()
+        .partition(|v| matches!(v.content, VariantContent::Unit));
+      for variant in &mut others {
+        variant.serde_attrs.push(SerdeAttribute::Untagged);
+      }
+      (units.into_iter().chain(others).collect(), vec![])
+    } else {
+      (variants, vec![SerdeAttribute::Untagged])
+    };
+
     RustType::Enum(
       EnumDef::builder()
         .name(EnumToken::from_raw(name))
         .docs(Documentation::from_optional(schema.description.as_ref()))
         .variants(variants)
-        .serde_attrs(vec![SerdeAttribute::Untagged])
+        .serde_attrs(serde_attrs)
         .case_insensitive(false)
         .methods(methods)
         .build(),
